@@ -1,7 +1,7 @@
 (** Property C10 — the in-memory store honours the Cursor contract for any
     conforming Parser. Statements only; proofs in Doc/StoreThm.v, Doc/Conform.v. *)
 From Coq Require Import Sorting.Sorted.
-From XV Require Import Base.Str Doc.Tree Doc.Store Doc.StoreThm Doc.Conform.
+From XV Require Import Base.Str Doc.Tree Doc.Store Doc.StoreThm Doc.Conform Doc.NsScope.
 Local Open Scope Z_scope.
 
 (** For EVERY stream allowed by the Parser contract (any forest of elements with
@@ -33,6 +33,24 @@ Theorem C10_inherited_namespaces_numbered : forall pn own ctr l c' L,
   inherit_from pn own ctr = (l, c') -> incr_below L ctr ->
   incr_below (L ++ map ns_pos l) c' /\ ctr <= c'.
 Proof. exact inherit_from_incr. Qed.
+
+(** each element owns its namespace nodes - its own declarations and, for EVERY prefix it
+    does not declare itself, a copy of what its parent has in scope, however many those are
+    (no bound on the lengths of [pn] and [own]); xmlns="" removes the default binding *)
+Theorem C10_each_element_owns_its_scope :
+  forall (p : str) (pn own : list ans) (ctr : Z) (l : list ans) (c : Z),
+    nodup_prefixes pn -> nodup_prefixes own -> inherit_from pn own ctr = (l, c) ->
+    find_ns p (drop_empty_default (own ++ l)) =
+    undeclare p match find_ns p own with Some u => Some u | None => find_ns p pn end.
+Proof. exact (@inherited_scope). Qed.
+
+(** and nothing else: the inherited nodes are copies for prefixes the parent has in scope and
+    the element did not declare *)
+Theorem C10_inherited_are_undeclared_prefixes :
+  forall (pn own : list ans) (ctr : Z) (l : list ans) (c : Z),
+    inherit_from pn own ctr = (l, c) ->
+    forall p : str, In p (map ns_prefix l) -> In p (map ns_prefix pn) /\ ~ In p (map ns_prefix own).
+Proof. exact (@inherit_from_prefixes). Qed.
 
 (** non-vacuity: a concrete conforming stream with namespaces that are inherited,
     overridden and undeclared *)
